@@ -1,5 +1,7 @@
 """Shared phases for the properties decided on LwCircuit (C01, C02, C08, C09, C19)."""
 import os
+
+import numpy as np
 import random
 
 from .. import tlc, replay_engine, trace_engine
@@ -292,4 +294,87 @@ def trace_phase(chk, pid, name, n, profile, mine, numeric=True, batch=400, nontr
     chk.traces_validated += len(recs)
     chk.add_phase("recorded traces " + name, traces=len(recs), accepted=nacc, profile=profile, numeric=numeric,
                   events=sum(len(r.events) - 1 for r in recs))
+    return nbad
+
+
+class _Shim:
+    """final observation of a recorded object, shaped like a Circuit for adapters.circuit.conforms"""
+
+    def __init__(self, fin):
+        self.n_modes = fin["n_modes"]
+        self._internal_modes = fin["internal"]
+        self.input_modes = fin["input_modes"]
+        self.heralds = fin["heralds"]
+        self.U_full = fin["U"]
+        self.U = fin["U"][: self.n_modes, : self.n_modes]
+
+
+def repo_tests_phase(chk, pid, mine, test_paths, timeout=1500, batch=300):
+    """the repository's own tests as trace sources: run them under harness.pytest_plugin (recording every public Circuit
+    construction call made at depth 0), validate the traces with LwCircuitTrace (structure) and the evaluator (numbers)"""
+    import pickle
+    import subprocess
+    import sys
+    from ..adapters import circuit as ad
+    from .. import ev
+    wd = tlc.workdir("%s_repotests" % pid)
+    out = os.path.join(wd, "traces.pkl")
+    repo = os.environ.get("LW_REPO", "/repo")
+    env = dict(os.environ, LW_TRACE_OUT=out, MPLBACKEND="Agg")
+    cmd = [sys.executable, "-m", "pytest", "-q", "-x", "-p", "no:cacheprovider", "-p", "harness.pytest_plugin", "-p", "no:rerunfailures"] + \
+          [os.path.join(repo, t) for t in test_paths]
+    p = subprocess.run(cmd, cwd=repo, env=env, stdout=subprocess.PIPE, stderr=subprocess.STDOUT, text=True, timeout=timeout)
+    if not os.path.exists(out):
+        raise MachineryError("repository tests under the recording plugin produced no traces:\n" + p.stdout[-1500:])
+    with open(out, "rb") as fh:
+        recs = [r for r in pickle.load(fh) if len(r.get("events", [])) > 1]
+    tests_failed = " failed" in p.stdout.split("\n")[-2] if p.stdout.strip() else False
+    nbad = 0
+    nacc = 0
+    for b0 in range(0, len(recs), batch):
+        part = recs[b0:b0 + batch]
+        res = trace_engine.validate("%s_repotr" % pid, "LwCircuitTrace", [r["events"] for r in part], {"LwRing", "LwMatrix", "LwCircuitDefs"})
+        chk.add_tlc("trace validation of repository tests [%d..%d)" % (b0, b0 + len(part)), res["res"], "LwCircuitTrace, structure; numbers by the evaluator")
+        nacc += len(res["accepted"])
+        for tid, (li, clauses) in sorted(res["bad"].items()):
+            r = part[tid - 1]
+            script = [(e["res"], e["op"], e["t"], e["a"]) for e in r["events"][1:li]]
+            if clauses == ["DRIFT"]:
+                chk.drift.append("repository test %s: implementation accepted a call the specification rejects: %s" % (r["test"], script[-1:]))
+                continue
+            for cl in clauses:
+                if cl in mine:
+                    nbad += chk.violation(cl, "history recorded from repository test %s rejected by LwCircuitTrace at event %d: %s" % (r["test"], li, script[-1]),
+                                          script={"module": "LwCircuitTrace", "test": r["test"], "events": script, "values": r["values"]}, sig={"clause": cl})
+        for tid, term in res["terms"].items():
+            r = part[tid - 1]
+            for s, fin in r["finals"].items():
+                tc = term[s - 1]
+                if tc["nu"] < 0 or "err" in fin:
+                    if "err" in fin and tc["nu"] >= 0 and "compile" in mine:
+                        vals = r["values"]
+                        if not any(v != v for v in vals):     # NaN = a non-numeric parameter value: a compile error is expected
+                            nbad += chk.violation("compile", "repository test %s: object %d does not compile: %s" % (r["test"], s, fin["err"]),
+                                                  script={"test": r["test"]}, sig={"clause": "compile"})
+                    continue
+                try:
+                    S = ev.sem(tc, sym=r["values"], blocks=r["blocks"])
+                except Exception:  # noqa: BLE001
+                    continue            # e.g. a parameter value outside its component's range at the end of the test
+                if not np.all(np.isfinite(S)):
+                    continue
+                c = ad.conforms(_Shim(fin), tc, S)
+                if c and c[0] in mine:
+                    script = [(e["res"], e["op"], e["t"], e["a"]) for e in r["events"][1:]]
+                    nbad += chk.violation(c[0], "repository test %s, object %d: %s" % (r["test"], s, c[1]),
+                                          script={"module": "LwCircuitTrace+evaluator", "test": r["test"], "events": script, "values": r["values"]}, sig={"clause": c[0]})
+        tlc.cleanup("%s_repotr" % pid)
+    for r in recs:
+        chk.count(key="repotest:" + r["test"], nontrivial=len(r["events"]) > 3)
+    if recs:
+        chk.sample({"repository test": recs[0]["test"], "events": [(e["res"], e["op"], e["t"], e["a"]) for e in recs[0]["events"][1:8]]})
+    chk.traces_validated += len(recs)
+    chk.add_phase("repository tests as trace sources", tests_with_traces=len(recs), accepted=nacc, truncated=sum(1 for r in recs if r.get("truncated")),
+                  pytest_tail=p.stdout.strip().split("\n")[-1][:200])
+    tlc.cleanup("%s_repotests" % pid)
     return nbad
